@@ -296,6 +296,42 @@ fn el_specials<F: PF>() -> Vec<Vec<u8>> {
     out
 }
 
+/// operands on which the binary-GCD based routines (division, inversion, Legendre symbol) converge slowest: internal
+/// patterns c*2^k with a small odd c and k close to the bit length (k halvings, then one bit of the modulus per step)
+fn gcd_family<F: PF>() -> Vec<BigInt> {
+    let nbv = nbits::<F>();
+    let q = F::modulus();
+    let mut out = Vec::new();
+    for j in 1..=40u32 {
+        if j >= nbv { break; }
+        let k = nbv - j;
+        let cmax: u64 = if j >= 9 { 255 } else { (1u64 << (j - 1)).max(1) * 2 - 1 };
+        let mut c = 1u64;
+        while c <= cmax {
+            let y = BigInt::from(c) * pow2(k);
+            if y.bits() <= nbv as u64 { for cand in [y.clone(), emod(&(&q - &y), &pow2(nbv))] { out.push(cand); } }
+            c += 2;
+        }
+    }
+    out
+}
+fn gcd_specials<F: PF>() -> Vec<Vec<u8>> {
+    let mut out = el_specials::<F>();
+    for y in gcd_family::<F>() { let w = in_internal::<F>(&clampn::<F>(y)); out.push(w); }
+    out
+}
+fn gcd_random<F: PF>(r: &mut Rng) -> Vec<u8> {
+    if r.below(2) == 0 { return el_random::<F>(r); }
+    let nbv = nbits::<F>();
+    let j = 1 + r.below(60.min(nbv as u64 - 1)) as u32;
+    let k = nbv - j;
+    let c = (r.next() | 1) & ((1u64 << j.min(40)) - 1).max(1);
+    let mut y = BigInt::from(c) * pow2(k);
+    if y.bits() > nbv as u64 { y = pow2(k); }
+    if r.below(3) == 0 { y = emod(&(F::modulus() - &y), &pow2(nbv)); }
+    in_internal::<F>(&clampn::<F>(y))
+}
+
 fn limb_pal<F: PF>(r: &mut Rng, i: usize) -> u64 {
     let ml = { let q = F::modulus(); let (_, d) = q.to_u64_digits(); d.get(i).copied().unwrap_or(0) };
     match r.below(20) {
@@ -496,6 +532,7 @@ fn reg_pf<F: PF>(v: &mut Vec<Case>, prefix: &str, tag: &str) {
     let mkid = |name: &str| if tag.is_empty() { format!("{}_{}", prefix, name) } else { format!("{}_{}@{}", prefix, name, tag) };
     let nb = nbytes::<F>();
     let el = Op::Custom { len: Some(nb), specials: el_specials::<F>, random: el_random::<F> };
+    let gcdel = Op::Custom { len: Some(nb), specials: gcd_specials::<F>, random: gcd_random::<F> };
     let pair = Op::Custom { len: Some(2 * nb), specials: pair_specials::<F>, random: pair_random::<F> };
     let eqp = Op::Custom { len: Some(2 * nb), specials: pair_specials::<F>, random: eq_random::<F> };
     let sq = Op::Custom { len: Some(nb), specials: sq_specials::<F>, random: sq_random::<F> };
@@ -607,7 +644,7 @@ fn reg_pf<F: PF>(v: &mut Vec<Case>, prefix: &str, tag: &str) {
     case!("from_w64", "w64le/w64be/from_w64le/from_w64be(limbs) == integer mod q for every limb pattern (>= q, 2q, 2^255, all-ones ...)", vec![int.clone()], |o, c| {
         let l = limbs_of(o[0]);
         all_eq(c, &F::w64(&l), &(le_to_int(o[0]) % &c.q), "w64") });
-    case!("div", "(a/b)*b == a when b != 0; a/0 == 0; all operator forms (+ invert where public)", vec![el.clone(), el.clone()], |o, c| {
+    case!("div", "(a/b)*b == a when b != 0; a/0 == 0; all operator forms (+ invert where public)", vec![el.clone(), gcdel.clone()], |o, c| {
         let (a, b) = (F::mk(o[0]), F::mk(o[1])); let (x, y) = (fe(&a), fe(&b));
         for (i, r) in a.f_div(b).iter().enumerate() {
             wf(c, r, "div")?;
@@ -635,7 +672,7 @@ fn reg_pf<F: PF>(v: &mut Vec<Case>, prefix: &str, tag: &str) {
             if !ok { return Err(format!("batch_invert n={} i={}: in {} out {}", n, i, hex(&orig[i].enc()), hex(&xs[i].enc()))); }
         }
         Ok(()) });
-    case!("legendre", "legendre(a) in {0,1,-1} per Euler's criterion", vec![el.clone()], |o, c| {
+    case!("legendre", "legendre(a) in {0,1,-1} per Euler's criterion (operands include the slowest-converging binary-GCD patterns c*2^k)", vec![gcdel.clone()], |o, c| {
         let a = F::mk(o[0]); let r = a.f_legendre();
         let e = modpow(&fe(&a), &((&c.q - 1) / 2), &c.q);
         let want = if e.sign() == Sign::NoSign { 0 } else if e == BigInt::from(1) { 1 } else { -1 };
